@@ -287,14 +287,16 @@ func calcSegmentAvailabilityTime(a *asset, rep *RepData, nr uint32, cfg *Respons
 	seg := rep.Segments[relNr]
 	mediaRef := cfg.StartTimeS * rep.MediaTimescale // TODO. Add period offset
 
-	// Check interval validity
-	segAvailTimeS := float64(int(seg.EndTime)+wrapTime+mediaRef) / float64(rep.MediaTimescale)
 	ato := cfg.getAvailabilityTimeOffsetS()
 	if ato == +math.Inf(1) {
 		return int64(cfg.StartTimeS) * 1000, nil
 	}
-	segAvailTimeS -= ato
-	milliSeconds := int64(segAvailTimeS * 1_000)
+	// The first whole millisecond at which the segment has ended. Rounding down (or going via float seconds)
+	// gives an instant at which the segment is still too early for segment durations like 2.002s.
+	endTicks := int64(int(seg.EndTime) + wrapTime + mediaRef)
+	timescale := int64(rep.MediaTimescale)
+	milliSeconds := (endTicks*1000 + timescale - 1) / timescale
+	milliSeconds -= int64(math.Floor(ato * 1000))
 	return milliSeconds, nil
 }
 
